@@ -1,4 +1,6 @@
-"""C11 — no residual server state once a client is gone (K4 + a model-free object-graph probe)."""
+"""C11 — no residual server state once a client is gone (K4 + a model-free object-graph probe; and, on the real
+AsyncServer under the controlled scheduler, emits in flight while a member's transport is lost:
+harness/sched_async.py `run_residue_schedules`)."""
 import gc
 
 from .. import common as C
@@ -184,6 +186,10 @@ def run(ctx):
                               'come and gone: %r' % (sizes,), {'sizes': sizes})
                 break
     ctx.coverage['graph_sizes'] = sizes
+    # state created for a client AFTER its clean-up ran, by an operation that was in flight: emits racing the loss of a
+    # member's transport on the real AsyncServer, every release order; same object-graph walk, at quiescence
+    from .. import sched_async
+    sched_async.run_residue_schedules(ctx)
     ctx.coverage['rule'] = ('client histories (connects to several namespaces, rooms, events, unanswered callbacks, refused '
                             'connections, partial binary packets, malformed packets, sessions) with any handler raising at any '
                             'invocation -- HandlerError, or asyncio.CancelledError out of a coroutine handler (out of an await on a '
@@ -195,5 +201,8 @@ def run(ctx):
 
 
 def replay(ctx, r):
+    if isinstance(r.get('replay'), dict) and r['replay'].get('kernel') == 'sched_residue':
+        from .. import sched_async
+        return sched_async.replay_residue(ctx, r['replay'])
     S.PROBES['pre'], S.PROBES['post'] = probe_pre, probe_post
     return S.replay_case(ctx, r, oracle=oracle)
